@@ -222,12 +222,14 @@ def rand_leaf(rng):
     if r < 0.5:
         return ('bool', rng.random() < 0.5)
     if r < 0.7:
-        s = G.str_payload(rng, '\x01', True, 10).encode()
-        return (rng.choice(['str', 'hstr', 'sstr']), s)
+        kind = rng.choice(['str', 'hstr', 'sstr'])
+        # lengths: mostly short, sometimes up to the capacity of the heapless::String<64> of the harness / beyond 64 for the others
+        s = G.str_payload(rng, '\x01', True, rng.choice([10, 10, 30, 60 if kind == 'hstr' else 150])).encode()[:64 if kind == 'hstr' else 1000].decode('utf-8', 'ignore').encode()     # cut at a character boundary
+        return (kind, s)
     if r < 0.8:
         return ('chars', rng.choice([b'VOLT', b'A1_b', b'x', (b'MNEMONIC_9' * 4)[:rng.randint(1, 40)]]))
     if r < 0.93:
-        n = rng.choice([0, 1, 2, 9, 10, 11, 40])
+        n = rng.choice([0, 1, 2, 9, 10, 11, 40, 99, 100, 101, 255, 256, 999, 1000, 1001])      # the length field changes its width at 10, 100, 1000
         return ('arb', bytes(rng.randrange(256) for _ in range(n)))
     if r < 0.97:
         return ('err', rng.choice([-113, -101, -350, -200, -222, -400, -100]))
@@ -243,7 +245,7 @@ def rand_value(rng, depth=0):
     k = rng.choice(['hv', 'sl'])
     # homogeneous leaves keep the list decodable
     proto = rand_leaf(rng)
-    n = rng.randint(0, 5)
+    n = rng.choice([0, 1, 2, 3, 4, 5, 15, 16])      # heapless::Vec<_, 16> in the harness
     items = []
     for _ in range(n):
         x = rand_leaf(rng)
